@@ -91,9 +91,19 @@ Definition wrapped_key_lt (rl : Z) (a b : feat) : bool :=
   ((k a =? k b) && ((- llen (floc a) <? - llen (floc b)) ||
                     ((- llen (floc a) =? - llen (floc b)) && (fprod a <? fprod b)))).
 
+(* pre-sort of the branch for regions that do not cross the origin:
+   sorted(clusters, key=(product, core_start, core_end)) - identical coordinates are not separated by
+   CDSCollection.__lt__, the stable second sort keeps this order for them *)
+Definition core_se (f : feat) : Z * Z :=
+  match fcore f with Some c => (loc_fstart c, loc_fend c) | None => (fstart f, fend f) end.
+Definition pre_key_lt (a b : feat) : bool :=
+  (fprod a <? fprod b) ||
+  ((fprod a =? fprod b) && ((fst (core_se a) <? fst (core_se b)) ||
+                            ((fst (core_se a) =? fst (core_se b)) && (snd (core_se a) <? snd (core_se b))))).
+
 (* protos: the set of protoclusters in its iteration order *)
 Definition unique_protoclusters (rloc : loc) (protos : list feat) : list feat :=
-  if negb (bridges rloc) then sort_by coll_lt protos
+  if negb (bridges rloc) then sort_by coll_lt (sort_by pre_key_lt protos)
   else sort_by (wrapped_key_lt (pe (first_part rloc))) protos.
 
 (* ---------- Area ---------- *)
